@@ -231,7 +231,7 @@ def acquire_post():
     return {
         'return': [
             ('true_means_lock_held_by_caller', {'C02', 'C12'}, true_means_held),
-            ('false_leaves_everything_as_it_was', {'C12'}, false_changes_nothing),
+            ('false_leaves_everything_as_it_was', {'C12', 'C13'}, false_changes_nothing),
             ('nonreentrant_refuses_second_acquire', {'C12'}, nonreentrant_refuses_second),
             ('reentrant_owner_reacquires', {'C12'}, reentrant_owner_always_gets_it),
             ('blocking_untimed_acquire_only_returns_True', {'C12'}, blocking_untimed_only_returns_true),
@@ -239,7 +239,7 @@ def acquire_post():
             ('timed_returns_within_2_timeouts_plus_poll', {'C12'}, timed_within_two_stages_plus_poll),
         ],
         'OSError': [
-            ('failed_attempt_keeps_nothing', {'C12', 'C02'}, exc_leaves_no_residue),
+            ('failed_attempt_keeps_nothing', {'C12', 'C02', 'C13'}, exc_leaves_no_residue),
             ('only_a_failing_close_propagates', {'C12'}, exc_only_from_close),
         ],
         'KeyboardInterrupt': [
@@ -286,9 +286,13 @@ def release_pre():
         ('wf', lambda E, a: WF(view(E, a.self))),
         # "release is called by the acquiring thread; releasing an unheld lock is a no-op":
         # either I hold it, or nobody does (and no other thread is racing to take it: assumption A-rel)
-        ('held_by_caller_or_unheld', lambda E, a: z3.Or(view(E, a.self)['mine'],
-                                                       z3.And(view(E, a.self)['depth'] == 0,
-                                                              lock_inv(E, a.self)))),
+        # ... or ANOTHER thread is in the middle of an acquire on this object (it owns the in-process lock and polls
+        # for the OS lock: no descriptor yet): for the caller the lock is unheld, its release must be a no-op
+        ('held_by_caller_or_unheld', lambda E, a: z3.Or(
+            view(E, a.self)['mine'],
+            z3.And(view(E, a.self)['depth'] == 0, lock_inv(E, a.self)),
+            z3.And(view(E, a.self)['depth'] >= 1, view(E, a.self)['owner'] != E.me, view(E, a.self)['fd_none'],
+                   view(E, a.self)['counter'] >= 1))),
     ]
 
 
